@@ -85,9 +85,7 @@ impl VInt for SymInt {
     }
     fn oblige(label: &str, f: VF<SymInt>) {
         let g = to_formula(&f);
-        if g != Formula::True {
-            with_ctx(|c| c.obligations.push((label.to_string(), g)));
-        }
+        with_ctx(|c| c.obligations.push((label.to_string(), g)));
     }
     fn assume(f: VF<SymInt>) {
         let g = to_formula(&f);
